@@ -174,6 +174,39 @@ def v2(R, prog):
                        describe=lambda ev: 'a reference is taken in the same critical section that removes the box from the LRU list', min_sites=1)
 
 
+def v2_box(R, prog):
+    """ObjectCacheV2::Box: (a) the shared_ptr slot `ref` is read and written concurrently without a common lock (borrow vs. a recycling
+    release / update / expire), so every access goes through the std::atomic_* shared_ptr functions; (b) both acquire() and release()
+    stamp the box with the current time - the reclaimer measures the lifespan from the LAST use."""
+    boxes = [f for f in prog.funcs.values() if re.search(r'^ObjectCacheV2<.*>::Box$', f.rec or '') or (f.rec or '').endswith('ObjectCacheV2::Box')]
+    meths = [f for f in boxes if f.kind == 'method' and f.blocks]
+    R.require(len(meths) >= 4, 'C19: ObjectCacheV2::Box methods not found (%d)' % len(meths))
+    seen = set()
+    for f in sorted(meths, key=lambda f: f.line):
+        nm = f.nname.split('::')[-1]
+        if nm in seen:
+            continue
+        seen.add(nm)
+        refs = [i for i, e in enumerate(f.exprs) if e['k'] == 'member' and e.get('name') == 'ref']
+        if refs:
+            covered = set()
+            for i, e in enumerate(f.exprs):
+                if e['k'] == 'call' and (e.get('fn') or '').startswith('std::atomic_'):
+                    covered |= set(f.subtree(i))
+            bad = [i for i in refs if i not in covered]
+            key = '%s.K1:ObjectCacheV2::Box::%s:shared_ptr-slot-only-through-atomic-functions' % (P, nm)
+            (R.violated if bad else R.held)(P + '.K1', key, f.id, f.locl(f.exprs[(bad or refs)[0]]['loc']),
+                                             'the slot `ref` is %s' % ('accessed directly (torn/stale shared_ptr copy under a concurrent exchange)' if bad else 'only passed to std::atomic_load/atomic_exchange'))
+        if nm in ('acquire', 'release'):
+            G = K.build_f(R, prog, f)
+            stamp = lambda ev: ev.kind == 'binop' and ev.e['op'] == '=' and (ev.path(ev.e['l']) or '').endswith('timestamp') and 'now' in (ev.show(ev.e['r']) or '')
+            res = an.run(G, [an.SeenTracker([('stamped', stamp)])])
+            K.check_at(R, P + '.K7', G, res, lambda ev: ev.kind == 'exit', require=lambda st, ev: 'S:stamped' in st,
+                       key_fn=lambda ev, nm=nm: '%s.K7:ObjectCacheV2::Box::%s:stamps-the-time-of-use' % (P, nm),
+                       describe=lambda ev: 'timestamp = photon::now on every path (lifespan is measured from the last acquire/release)', min_sites=1, what='exit')
+
+
 def run(R, prog, tier):
+    R.guard(v2_box, R, prog)
     R.guard(base, R, prog)
     R.guard(v2, R, prog)
